@@ -427,4 +427,147 @@ func CheckC12(r *Report) {
 		r.AddExplore(res, fmt.Sprintf("deviations <= %d, all placements", dev), time.Since(t0).Seconds())
 		r.DistinctNontrivial += res.Executions - 1
 	}
+	c12Sched(r)
+	r.Rule += " || PLUS schedules: a reader inside its callback and a Close waiting for it, every interleaving (preemption bound 2) x every placement of 1 (thorough 2) failing primitive: nobody is left blocked, a retried Close succeeds, nothing stays mapped or locked"
+}
+
+// ---------------------------------------------------------------------------------
+// C12 (schedules): faults while another goroutine is waiting. A reader is inside its callback, a Close is parked
+// waiting for it, and any primitive of the reader's release or of the Close may fail (deviation-bounded) under every
+// interleaving up to the preemption bound. Nobody may be left blocked: a failed release still lets the waiting Close
+// go on, and once the faults stop a retried Close succeeds and leaves nothing mapped or locked.
+// ---------------------------------------------------------------------------------
+
+type c12SchedScenario struct {
+	name    string
+	impl    string
+	threads []string // reader | closer
+}
+
+func (sc c12SchedScenario) body(c *explore.Ctx) {
+	vsched.BeginQuiet()
+	mc := doubles.NewShadowMemcall()
+	mc.Secret = c12Secret
+	f := c12Factory(sc.impl, mc)
+	inUse0 := securememory.InUseCounter.Count()
+	sec, err := f.New(append([]byte(nil), c12Secret...))
+	if err != nil {
+		panic(err)
+	}
+	vsched.EndQuiet()
+	mc.Armed = true
+	done := make([]bool, len(sc.threads))
+	errs := make([]error, len(sc.threads))
+	pans := make([]string, len(sc.threads))
+	for i, kind := range sc.threads {
+		i, kind := i, kind
+		vsched.GoNamed(kind, func() {
+			pans[i] = safe(func() {
+				if kind == "reader" {
+					errs[i] = sec.WithBytes(func(b []byte) error {
+						vsched.Yield("reader.inside")
+						return nil
+					})
+				} else {
+					errs[i] = sec.Close()
+				}
+			})
+			done[i] = true
+		})
+	}
+	vsched.Quiesce()
+	mc.Armed = false
+	nf := 0
+	for _, cl := range mc.Calls {
+		if cl.Fault {
+			nf++
+		}
+	}
+	if nf > 0 {
+		c.Outcome("faulted")
+	} else {
+		c.Outcome("no-fault")
+	}
+	for i, kind := range sc.threads {
+		if pans[i] != "" {
+			c.Failf("panic", "%s panicked: %s", kind, pans[i])
+			return
+		}
+		if !done[i] {
+			c.Failf("blocked-after-fault", "thread %d (%s) never returned (%d injected faults); blocked: %v; calls: %s", i, kind, nf, vsched.Blocked(), c12Calls(mc))
+			return
+		}
+		if nf == 0 && errs[i] != nil && !(kind == "reader" && strings.Contains(errs[i].Error(), "already been destroyed")) {
+			c.Failf("error-without-fault", "%s failed without any injected fault: %v", kind, errs[i])
+		}
+	}
+	// recovery: with the faults stopped a (retried) Close succeeds and nothing is left behind
+	vsched.BeginQuiet()
+	defer vsched.EndQuiet()
+	if err := sec.Close(); err != nil {
+		c.Failf("close-not-retryable", "after the faults stopped Close still fails: %v; calls: %s", err, c12Calls(mc))
+		return
+	}
+	for _, p := range mc.List {
+		if !p.Foreign && (p.Mapped || p.Locked) {
+			c.Failf("page-left-behind", "page %d still mapped=%v locked=%v after the final Close; calls: %s", p.ID, p.Mapped, p.Locked, c12Calls(mc))
+		}
+	}
+	if got := securememory.InUseCounter.Count() - inUse0; got != 0 {
+		c.Failf("inuse-unbalanced", "the in-use counter moved by %d over a created and closed secret; calls: %s", got, c12Calls(mc))
+	}
+	for _, ev := range mc.Events {
+		c.Failf("shadow:"+eventClass(ev), "%s; calls: %s", ev, c12Calls(mc))
+	}
+}
+
+func c12SchedScenarios(thorough bool) []c12SchedScenario {
+	var out []c12SchedScenario
+	for _, impl := range []string{"protected", "memguard"} {
+		out = append(out, c12SchedScenario{impl + "/reader-closer", impl, []string{"reader", "closer"}})
+		if thorough {
+			out = append(out,
+				c12SchedScenario{impl + "/2readers-closer", impl, []string{"reader", "reader", "closer"}},
+				c12SchedScenario{impl + "/reader-2closers", impl, []string{"reader", "closer", "closer"}})
+		}
+	}
+	return out
+}
+
+func c12Sched(r *Report) {
+	for _, sc := range c12SchedScenarios(r.Thorough()) {
+		sc := sc
+		if !r.TimeLeft() {
+			r.Exhaustive = false
+			r.Caps = append(r.Caps, "C12s/"+sc.name+": not started (time budget)")
+			continue
+		}
+		dev, pre := 1, 2
+		if r.Thorough() {
+			dev = 2
+		}
+		t0 := time.Now()
+		cfg := explore.Config{Name: "C12s/" + sc.name, Preemptions: pre, Deviations: dev, Deadline: r.Deadline, MaxViolations: 50}
+		res := explore.Explore(cfg, sc.body)
+		seen := map[string]bool{}
+		var keep []explore.Violation
+		for _, v := range res.Violations {
+			if !seen[v.Sig] {
+				seen[v.Sig] = true
+				keep = append(keep, v)
+			}
+		}
+		res.Violations = keep
+		r.AddExplore(res, fmt.Sprintf("preemptions <= %d, failing primitives <= %d", pre, dev), time.Since(t0).Seconds())
+		r.DistinctNontrivial += res.Outcomes["faulted"]
+	}
+}
+
+func c12SchedReplayBody(h string) explore.Body {
+	for _, sc := range c12SchedScenarios(true) {
+		if "C12s/"+sc.name == h {
+			return sc.body
+		}
+	}
+	return nil
 }
